@@ -1,7 +1,8 @@
 (* C08 — configuration survives encode/decode round trips.
    Only statements here; every proof is `exact <lemma of Proofs/C08_*.v>`. *)
-From Coq Require Import List ZArith.
-Require Import MTX.Lib.IntWrap MTX.Model.C08_Scalars MTX.Proofs.C08_Dec MTX.Proofs.C08_Codecs MTX.Proofs.C08_Duration.
+From Coq Require Import List ZArith Bool.
+Require Import MTX.Lib.IntWrap MTX.Lib.Utf8 MTX.Model.C08_Scalars MTX.Proofs.C08_Dec MTX.Proofs.C08_Codecs MTX.Proofs.C08_Duration.
+Require Import MTX.Model.C08_Net6 MTX.Proofs.C08_Net6.
 Require Import MTX.Model.C08_Schema MTX.Model.C08_ConfCodecs MTX.Proofs.C08_Schema MTX.Proofs.C08_ConfCodecs.
 Require Import MTXGen.C08_ConfSchema MTX.Proofs.C08_ConfInstance.
 Import ListNotations.
@@ -99,10 +100,75 @@ Example C08_ipnet_example :
   ipnet4_wf [10; 1; 2; 3] 16 = false.
 Proof. exact ipnet4_example. Qed.
 
+(* ---- IPv6.  ip6_string transliterates netip.Addr.appendTo6 (what net.IP.String prints for a 16-byte
+   address that is not IPv4-mapped: the longest run of >= 2 zero groups, leftmost on ties, becomes "::",
+   groups in lower-case hex without leading zeros); parse_ipv6 transliterates netip.parseIPv6 (hex groups,
+   one "::", embedded dotted quad; a zone is an error for both callers).  For EVERY 128-bit address: *)
+Theorem C08_ip6_parse_string : forall ip,
+  length ip = 16%nat -> Forall (fun b => 0 <= b <= 255) ip -> parse_ipv6 (ip6_string ip) = Some ip.
+Proof. intros ip Hl Hb. exact (proj1 (ip6_parse_string ip Hl Hb)). Qed.
+Print Assumptions C08_ip6_parse_string.
+
+(* IPNetwork.UnmarshalJSON (IPNetwork.MarshalJSON n) = n for every IPv6 network the decoder can hold:
+   16 bytes, not IPv4-mapped, prefix length 0..128, host bits clear (ParseCIDR applies the mask) *)
+Theorem C08_ipnet6_roundtrip : forall ip ones,
+  net6_wf ip ones = true -> ipnet_unmarshal_full (ipnet6_string ip ones) = NF6 ip ones.
+Proof. exact ipnet6_roundtrip_full. Qed.
+Print Assumptions C08_ipnet6_roundtrip.
+
+(* a 16-byte IPv4-mapped network (never stored by the decoder, but constructible in Go) prints as the
+   dotted-quad network and decodes to the 4-byte form of the same network *)
+Theorem C08_ipnet6_mapped : forall ip ones,
+  length ip = 16%nat -> forallb (fun b => (0 <=? b) && (b <=? 255)) ip = true -> is4in6 ip = true ->
+  96 <= ones <= 128 -> apply_mask ip ones = ip ->
+  ipnet6_string ip ones = ipnet4_string (skipn 12 ip) (ones - 96) /\
+  ipnet_unmarshal_full (ipnet6_string ip ones) = NF4 (skipn 12 ip) (ones - 96).
+Proof. exact ipnet6_mapped. Qed.
+Print Assumptions C08_ipnet6_mapped.
+
+Example C08_ipnet6_examples :
+  ip6_string [32;1;13;184;0;0;0;0;0;0;0;0;0;0;0;1] = [50;48;48;49;58;100;98;56;58;58;49] (* 2001:db8::1 *) /\
+  ip6_string (repeat 0 16) = [58;58] /\
+  (* two runs of equal length: the leftmost is compressed;  1:0:0:2:0:0:3:4 -> 1::2:0:0:3:4 *)
+  ip6_string [0;1;0;0;0;0;0;2;0;0;0;0;0;3;0;4] = [49;58;58;50;58;48;58;48;58;51;58;52] /\
+  (* a single zero group is not compressed *)
+  ip6_string [0;1;0;0;0;2;0;3;0;4;0;5;0;6;0;7] = [49;58;48;58;50;58;51;58;52;58;53;58;54;58;55] /\
+  net6_wf [32;1;13;184;0;0;0;0;0;0;0;0;0;0;0;0] 32 = true /\
+  ipnet_unmarshal_full [50;48;48;49;58;100;98;56;58;58;49;47;51;50] = NF6 [32;1;13;184;0;0;0;0;0;0;0;0;0;0;0;0] 32 /\
+  (* ::ffff:1.2.3.4/120 is stored as 1.2.3.0/24 *)
+  ipnet_unmarshal_full [58;58;102;102;102;102;58;49;46;50;46;51;46;52;47;49;50;48] = NF4 [1;2;3;0] 24 /\
+  ipnet_unmarshal_full [102;101;56;48;58;58;49;37;101;116;104;48;47;54;52] = NFErr.
+Proof. exact net6_examples. Qed.
+
+(* ---- AlwaysAvailableTrack: no MarshalJSON (plain struct encoding of codec / sampleRate / channelCount /
+   muLaw), UnmarshalJSON = jsonwrapper on the alias struct + validate().  Every track that validate()
+   accepts round-trips; the decoder returns only such tracks. *)
+Theorem C08_track_roundtrip : forall c r n m,
+  valid_utf8 c = true -> int64_lo <= r <= int64_hi -> int64_lo <= n <= int64_hi -> track_valid c r n = true ->
+  track_dec (track_enc c r n m) = Some (XTrack c r n m) /\ track_enc c r n m <> JNull.
+Proof. exact track_roundtrip. Qed.
+Print Assumptions C08_track_roundtrip.
+
+Theorem C08_track_dec_valid : forall j c r n m, track_dec j = Some (XTrack c r n m) -> track_valid c r n = true.
+Proof. exact track_dec_valid. Qed.
+Print Assumptions C08_track_dec_valid.
+
+Example C08_track_examples :
+  track_enc s_MPEG4Audio 44100 2 false =
+    JObj [(s_codec, JStr s_MPEG4Audio); (s_sampleRate, JInt 44100); (s_channelCount, JInt 2); (s_muLaw, JBool false)] /\
+  track_dec (track_enc s_MPEG4Audio 44100 2 false) = Some (XTrack s_MPEG4Audio 44100 2 false) /\
+  track_dec (track_enc s_H264 44100 0 false) = None /\
+  track_dec (JObj [(s_codec, JStr s_G711); (s_sampleRate, JInt 8000); (s_channelCount, JInt 1)]) = Some (XTrack s_G711 8000 1 false) /\
+  track_dec (JObj [(s_codec, JStr s_G711); (s_sampleRate, JInt 8000); (s_channelCount, JInt 1); ([120], JInt 1)]) = None /\
+  track_dec JNull = None.
+Proof. exact track_examples. Qed.
+
 (* ---- schema-generic theorem: for any codec table, any type of the universe (bool / int kinds / float as
    an opaque token / string / codec types / slices / pointers / maps / structs with omitempty) whose codecs
    round-trip, decoding (jsonwrapper: unknown fields rejected, null slices rejected, absent fields zero)
-   what encoding/json wrote gives the value back.  Structural induction on the type. *)
+   what encoding/json wrote gives the value back.  Structural induction on the type.
+   Maps: [wf] of a map value includes [no_dup_keys] (C08_map_no_dup_keys below) - the decoder model keeps
+   duplicate keys apart where Go keeps the last one, so the theorem speaks of maps with distinct keys. *)
 Theorem C08_schema_roundtrip :
   forall (codec cval : Type) (cenc : codec -> cval -> json) (cdec : codec -> json -> option cval)
          (cwf : codec -> cval -> Prop) (czero : codec -> cval) (t : ty codec),
@@ -111,47 +177,46 @@ Theorem C08_schema_roundtrip :
 Proof. exact schema_roundtrip. Qed.
 Print Assumptions C08_schema_roundtrip.
 
+Theorem C08_map_no_dup_keys : forall (codec cval : Type) (cwf : codec -> cval -> Prop) t m,
+  wf codec cval cwf (TMap t) (VMap m) -> no_dup_keys cval m.
+Proof. exact wf_map_no_dup_keys. Qed.
+Print Assumptions C08_map_no_dup_keys.
+
 (* ---- instance on coq/gen/C08_ConfSchema.v, regenerated on every run by reflection over the real
-   conf.Conf / conf.Path / optional types.  The codecs are the byte-exact models above; what is NOT
-   modelled enters as hypotheses on oracles: the text form of IPv6 networks, Credential.validate
-   (any predicate), AlwaysAvailableTrack's codec. *)
+   conf.Conf / conf.Path / optional types.  The codecs are the byte-exact models above (durations, sizes,
+   IP networks of both families, enums, transports, AlwaysAvailableTrack); the one oracle left is
+   Credential.validate (any predicate). *)
 Theorem C08_conf_roundtrip :
-  forall (net6 : Type) (net6_print : net6 -> list Z) (net6_parse : list Z -> option net6)
-         (cred_valid : list Z -> bool)
-         (track : Type) (track_enc : track -> json) (track_dec : json -> option track),
-  (forall x, ipnet_unmarshal (net6_print x) = NV6 /\ net6_parse (net6_print x) = Some x) ->
-  (forall x, track_dec (track_enc x) = Some x /\ track_enc x <> JNull) ->
+  forall (cred_valid : list Z -> bool),
   forall t, In t [global_ty; path_ty; opt_global_ty; opt_path_ty] ->
-  forall v, wf codec (cval net6 track) (cwf net6 cred_valid track) t v ->
-  dec codec (cval net6 track) (cdec net6 net6_parse cred_valid track track_dec) (czero net6 track) t
-      (enc codec (cval net6 track) (cenc net6 net6_print track track_enc) t v) = Some v.
+  forall v, wf codec cval (cwf cred_valid) t v ->
+  dec codec cval (cdec cred_valid) czero t (enc codec cval cenc t v) = Some v.
 Proof. exact conf_roundtrip. Qed.
 Print Assumptions C08_conf_roundtrip.
 
 (* GET then PATCH: what Conf.Global() / a Path encodes, decoded into the optional (all-pointer) view and
    copied back field by field (copyStructFields), is the configuration one started from *)
 Theorem C08_api_roundtrip :
-  forall (net6 : Type) (net6_print : net6 -> list Z) (net6_parse : list Z -> option net6)
-         (cred_valid : list Z -> bool)
-         (track : Type) (track_enc : track -> json) (track_dec : json -> option track),
-  (forall x, ipnet_unmarshal (net6_print x) = NV6 /\ net6_parse (net6_print x) = Some x) ->
-  (forall x, track_dec (track_enc x) = Some x /\ track_enc x <> JNull) ->
+  forall (cred_valid : list Z -> bool),
   forall t t', In (t, t') [(global_ty, opt_global_ty); (path_ty, opt_path_ty)] ->
-  forall vs, wf codec (cval net6 track) (cwf net6 cred_valid track) t (VStruct vs) ->
-  dec codec (cval net6 track) (cdec net6 net6_parse cred_valid track track_dec) (czero net6 track) t'
-      (enc codec (cval net6 track) (cenc net6 net6_print track track_enc) t (VStruct vs))
-    = Some (lift codec (cval net6 track) t (VStruct vs)) /\
-  patch codec (cval net6 track) t (VStruct vs) (lift codec (cval net6 track) t (VStruct vs)) = VStruct vs.
+  forall vs, wf codec cval (cwf cred_valid) t (VStruct vs) ->
+  dec codec cval (cdec cred_valid) czero t' (enc codec cval cenc t (VStruct vs)) = Some (lift codec cval t (VStruct vs)) /\
+  patch codec cval t (VStruct vs) (lift codec cval t (VStruct vs)) = VStruct vs.
 Proof. exact api_roundtrip. Qed.
 Print Assumptions C08_api_roundtrip.
 
 (* the decode targets built by reflect.StructOf are the optional views of the encoded structs; every
-   type with JSON methods met in the schema has a codec model; omitempty sits on pointer fields only *)
+   type with JSON methods met in the schema has a codec model; omitempty sits on pointer fields only;
+   struct keys are unique (ty_ok); the struct reflected from AlwaysAvailableTrack is the one the CTrack
+   codec models; no map type occurs, so the map restriction (no_dup_keys) is discharged vacuously *)
 Theorem C08_schema_facts :
   (schema_ok global_ty = true /\ schema_ok path_ty = true /\ schema_ok opt_global_ty = true /\ schema_ok opt_path_ty = true) /\
   (opt_global_ty = optionalize codec global_ty /\ opt_path_ty = optionalize codec path_ty /\
-   global_ty = TStruct (fields_of global_ty) /\ path_ty = TStruct (fields_of path_ty)).
-Proof. exact (conj schemas_ok optional_views). Qed.
+   global_ty = TStruct (fields_of global_ty) /\ path_ty = TStruct (fields_of path_ty)) /\
+  track_ty = track_ty_model /\
+  (has_map codec global_ty = false /\ has_map codec path_ty = false /\
+   has_map codec opt_global_ty = false /\ has_map codec opt_path_ty = false).
+Proof. exact (conj schemas_ok (conj optional_views (conj track_schema schemas_no_map))). Qed.
 Print Assumptions C08_schema_facts.
 
 Example C08_schema_nonvacuous :
